@@ -235,7 +235,14 @@ public:
   void append(const T* values, usize size)
   {
     usize oldSize = _end.item - _begin.item;
-    reserve(oldSize + size);
+    if(oldSize + size > _capacity && values >= _begin.item && values < _end.item)
+    { // reserve() relocates the elements and values points at some of them
+      usize offset = values - _begin.item;
+      reserve(oldSize + size);
+      values = _begin.item + offset;
+    }
+    else
+      reserve(oldSize + size);
     T* item = _end.item;
     for(T* end = item + size; item < end; ++item, ++values)
     {
